@@ -58,6 +58,45 @@ func reqOpts(rq wproto.Req) []gtree.Option {
 	return opts
 }
 
+// optOf: one token of Options.tla's alphabet as the real option (jail: the directory holding targets A and B)
+func optOf(tok, jail string, ctx context.Context) gtree.Option {
+	switch tok {
+	case "json":
+		return gtree.WithEncodeJSON()
+	case "yaml":
+		return gtree.WithEncodeYAML()
+	case "toml":
+		return gtree.WithEncodeTOML()
+	case "dry":
+		return gtree.WithDryRun()
+	case "exts1":
+		return gtree.WithFileExtensions([]string{".x"})
+	case "exts2":
+		return gtree.WithFileExtensions([]string{"a"})
+	case "exts0":
+		return gtree.WithFileExtensions([]string{})
+	case "targetA":
+		return gtree.WithTargetDir(filepath.Join(jail, "A"))
+	case "targetB":
+		return gtree.WithTargetDir(filepath.Join(jail, "B"))
+	case "strict":
+		return gtree.WithStrictVerify()
+	case "noiter":
+		return gtree.WithNoUseIterOfSimpleOutput()
+	case "massive":
+		return gtree.WithMassive(ctx)
+	case "brL1":
+		return gtree.WithBranchFormatLastNode("`--", "    ")
+	case "brL2":
+		return gtree.WithBranchFormatLastNode("\\__", "  ")
+	case "brI1":
+		return gtree.WithBranchFormatIntermedialNode("|--", "|   ")
+	case "nil":
+		return nil
+	}
+	panic("harness: unknown option token " + tok)
+}
+
 func snapshot(dir string) []string {
 	var out []string
 	filepath.WalkDir(dir, func(p string, d fs.DirEntry, err error) error {
@@ -270,7 +309,22 @@ func handleReq(rq wproto.Req) (rp wproto.Rep) {
 		opts = append(opts, gtree.WithMassive(ctx))
 	}
 	var jail string
-	if rq.Target != "" {
+	if rq.OptMode {
+		var err error
+		jail, err = os.MkdirTemp("", "verif-jail-")
+		if err != nil {
+			return wproto.Rep{Class: "err", Err: "harness: " + err.Error()}
+		}
+		defer os.RemoveAll(jail)
+		os.Mkdir(filepath.Join(jail, "A"), 0o755)
+		os.Mkdir(filepath.Join(jail, "B"), 0o755)
+		octx, ocancel := context.WithCancel(context.Background())
+		defer ocancel()
+		opts = []gtree.Option{gtree.WithTargetDir(filepath.Join(jail, "A"))}
+		for _, t := range rq.OptSeq {
+			opts = append(opts, optOf(t, jail, octx))
+		}
+	} else if rq.Target != "" {
 		opts = append(opts, gtree.WithTargetDir(rq.Target))
 	} else if rq.Jail || rq.Op == "mkdir" || rq.Op == "verify" {
 		var err error
@@ -308,8 +362,17 @@ func handleReq(rq wproto.Req) (rp wproto.Rep) {
 	}
 	if rq.PreDoc != "" && jail != "" {
 		// the directory state the case needs: made with the simple mode before the call under test
-		if err := gtree.MkdirFromMarkdown(strings.NewReader(rq.PreDoc), gtree.WithTargetDir(filepath.Join(jail, "t"))); err != nil {
+		sub, exts := "t", []string(nil)
+		if rq.OptMode {
+			sub, exts = "A", []string{".x"}
+		}
+		if err := gtree.MkdirFromMarkdown(strings.NewReader(rq.PreDoc), gtree.WithTargetDir(filepath.Join(jail, sub)), gtree.WithFileExtensions(exts)); err != nil {
 			return wproto.Rep{Class: "err", Err: "harness: pre-mkdir: " + err.Error()}
+		}
+	}
+	for _, f := range rq.PreFiles {
+		if jail != "" {
+			os.WriteFile(filepath.Join(jail, f), []byte("x"), 0o644)
 		}
 	}
 	start := time.Now()
@@ -410,6 +473,25 @@ func handleReq(rq wproto.Req) (rp wproto.Rep) {
 	}
 	if jail != "" {
 		rp.Entries = snapshot(jail)
+		if rq.OptMode { // every call has its own jail: make the texts comparable
+			rp.Err = strings.ReplaceAll(rp.Err, jail, "$JAIL")
+			// the verifier lists paths in map order: sort the lines below each heading
+			var blocks [][]string
+			for _, l := range strings.Split(rp.Err, "\n") {
+				if !strings.HasPrefix(l, "\t") || len(blocks) == 0 {
+					blocks = append(blocks, []string{l})
+				} else {
+					blocks[len(blocks)-1] = append(blocks[len(blocks)-1], l)
+				}
+			}
+			var ls []string
+			for _, b := range blocks {
+				sort.Strings(b[1:])
+				ls = append(ls, b...)
+			}
+			rp.Err = strings.Join(ls, "\n")
+			rp.Out = strings.ReplaceAll(rp.Out, jail, "$JAIL")
+		}
 	}
 	hc.release()
 	if theReader != nil {
